@@ -19,6 +19,7 @@ Line numbers are kept (reports still point at the source line); printed construc
 from __future__ import annotations
 
 import ast
+import copy
 
 _MIRROR = {ast.Eq: ast.Eq, ast.NotEq: ast.NotEq, ast.Lt: ast.Gt, ast.Gt: ast.Lt, ast.LtE: ast.GtE, ast.GtE: ast.LtE}
 _NEG = {ast.Eq: ast.NotEq, ast.NotEq: ast.Eq, ast.In: ast.NotIn, ast.NotIn: ast.In, ast.Is: ast.IsNot, ast.IsNot: ast.Is}
@@ -271,8 +272,49 @@ def _defaultdict_groups(tree):
     return tree
 
 
+class _SubstName(ast.NodeTransformer):
+    def __init__(self, name, repl):
+        self.name, self.repl = name, repl
+
+    def visit_Name(self, n):
+        if n.id == self.name and isinstance(n.ctx, ast.Load):
+            return ast.copy_location(copy.deepcopy(self.repl), n)
+        return n
+
+
+def _unpack_of_literal_map(tree):
+    """N10: `a, b = (f(s) for s in (x, y))` (generator or list comprehension over a literal of the same length, no filter)
+    is the parallel assignment `a, b = f(x), f(y)`; with plain-name targets that are not read on the right it is `a = f(x)`; `b = f(y)`."""
+    for holder in ast.walk(tree):
+        for f in ("body", "orelse", "finalbody"):
+            lst = getattr(holder, f, None)
+            if not (isinstance(lst, list) and lst and isinstance(lst[0], ast.stmt)):
+                continue
+            out = []
+            for st in lst:
+                if isinstance(st, ast.Assign) and len(st.targets) == 1 and isinstance(st.targets[0], (ast.Tuple, ast.List)) \
+                        and isinstance(st.value, (ast.GeneratorExp, ast.ListComp)) and len(st.value.generators) == 1:
+                    g = st.value.generators[0]
+                    if not g.ifs and not g.is_async and isinstance(g.target, ast.Name) and isinstance(g.iter, (ast.Tuple, ast.List)) \
+                            and len(g.iter.elts) == len(st.targets[0].elts) and not any(isinstance(e, ast.Starred) for e in g.iter.elts + st.targets[0].elts):
+                        st.value = ast.copy_location(ast.Tuple(elts=[_SubstName(g.target.id, e).visit(copy.deepcopy(st.value.elt)) for e in g.iter.elts],
+                                                               ctx=ast.Load()), st.value)
+                if isinstance(st, ast.Assign) and len(st.targets) == 1 and isinstance(st.targets[0], ast.Tuple) and isinstance(st.value, ast.Tuple) \
+                        and len(st.targets[0].elts) == len(st.value.elts) and all(isinstance(e, ast.Name) for e in st.targets[0].elts) \
+                        and any(isinstance(e, ast.Call) for e in st.value.elts):
+                    tnames = {e.id for e in st.targets[0].elts}
+                    if len(tnames) == len(st.targets[0].elts) and not any(isinstance(x, ast.Name) and x.id in tnames for e in st.value.elts for x in ast.walk(e)):
+                        for tg, v in zip(st.targets[0].elts, st.value.elts):
+                            out.append(ast.copy_location(ast.Assign(targets=[tg], value=v), st))
+                        continue
+                out.append(st)
+            setattr(holder, f, out)
+    return tree
+
+
 def normalise(tree: ast.AST) -> ast.AST:
     tree = Normalise().visit(tree)
     tree = _defaultdict_groups(tree)
+    tree = _unpack_of_literal_map(tree)
     ast.fix_missing_locations(tree)
     return tree
